@@ -3,7 +3,7 @@ from .assign import assign_check
 
 
 def run():
-    chk = assign_check("C11", case_filter=lambda c: c["A"] == ["fix"])
+    chk = assign_check("C11", case_filter=lambda c: c["A"] == ["fix"], sessions=(80, 800))
     if isinstance(chk, int):
         return chk
     return chk.finish(
